@@ -42,6 +42,21 @@ def step (_ : Unit) (ws : List String) : Unit × String :=
       ((), verdict (Spec.Cache.dupFlightOk (fail != "ok") n returned nok nerr gets (b01 lr) (b01 lh) (b01 lo) lg)
         "violates-property")
     | _, _, _, _, _, _ => ((), "bad-op")
+  | ["!expiry2", _, _, ttl, pttl, sb, sa, ab, aa, pxat] =>
+    match ttl.toInt?, pttl.toInt?, sb.toInt?, sa.toInt?, ab.toInt?, aa.toInt?, pxat.toInt? with
+    | some ttl, some pttl, some sb, some sa, some ab, some aa, some pxat =>
+      ((), verdict (Spec.Cache.expiryWindow2Ok ttl pttl sb sa ab aa pxat)
+        s!"expiry-should-be-in=[{Spec.Cache.expiryMs sb ttl ab pttl},{Spec.Cache.expiryMs sa ttl aa pttl}]")
+    | _, _, _, _, _, _, _ => ((), "bad-op")
+  | ["!closehang", _, n, returned, nerr] =>
+    match n.toNat?, returned.toNat?, nerr.toNat? with
+    | some n, some r, some e => ((), verdict (Spec.Cache.closeHangOk n r e) "violates-property")
+    | _, _, _ => ((), "bad-op")
+  | ["!hitvalue", _, _, _, _, _, _, ok] => ((), verdict (Spec.Cache.hitValueOk (b01 ok)) "value-is-not-the-servers-reply-for-this-command")
+  | ["!mgetown", _, _, wr, wo, ao, lh, lo, f] =>
+    match f.toNat? with
+    | some f => ((), verdict (Spec.Cache.mgetOwnOk (b01 wr) (b01 wo) (b01 ao) (b01 lh) (b01 lo) f) "violates-property")
+    | none => ((), "bad-op")
   | _ => ((), "bad-op")
 
 def main : IO Unit := Hex.lineLoop () step
